@@ -17,7 +17,12 @@ import (
 	"fmt"
 	"strconv"
 	"strings"
+	"sync/atomic"
 )
+
+// ProgressTicks counts executions started in this process, owned or not
+// (the worker watchdog uses it to tell slow sharing of shallow nodes from a hang).
+var ProgressTicks uint64
 
 // Dev is one non-default answer at a choice point.
 type Dev struct {
@@ -294,6 +299,7 @@ func (e *Explorer) explore(devs DevList, depth int, owned bool) {
 	if check && e.Before != nil {
 		e.Before(devs)
 	}
+	atomic.AddUint64(&ProgressTicks, 1)
 	x := Run(e.H, devs, false)
 	if check {
 		if !e.Visit(x) {
